@@ -27,6 +27,7 @@ class C17(Check):
     id = 'C17'
     props_module = 'CssVerif.Props.C17'
     driver_exe = 'drv_c17'
+    extra_modules = ('CssVerif.Lemmas.MediaEngine',)
     sources = ('cssutils/stylesheets/medialist.py', 'cssutils/stylesheets/mediaquery.py', 'cssutils/prodparser.py',
                'cssutils/serialize.py', 'cssutils/css/cssmediarule.py', 'cssutils/css/cssimportrule.py',
                'cssutils/css/value.py', 'cssutils/util.py', 'cssutils/helper.py')
@@ -56,9 +57,11 @@ class C17(Check):
 
     # ------------------------------------------------------------------------------------------
     def translate(self, ctx):
-        from gen import c17_media
+        from gen import c17_media, c17_grammar
         files, info = c17_media.generate(ctx.repo)
         ctx.notes['gen'] = {k: v for k, v in info.items() if k != 'sha'}
+        files2, _ = c17_grammar.generate(ctx.repo)
+        files.update(files2)
         return files
 
     def run(self, ctx):
@@ -116,6 +119,7 @@ class C17(Check):
     # -- correspondence --------------------------------------------------------------------------
     def correspond(self, ctx, impl, hist):
         lines, expect, owners = [], [], []
+        cmp_lines, cmp_seen = [], set()
         for h in hist:
             with time_limit(20):
                 steps = impl.run_history(h)
@@ -123,6 +127,18 @@ class C17(Check):
                 lines.append(line)
                 expect.append(reply)
                 owners.append(h)
+                # the same token lists for the comparison derived parser <-> engine on the captured grammars
+                w = line.split(' ')
+                c = None
+                if w[0] == 'set':
+                    c = 'cmpl %s %s' % (w[2], w[3])
+                elif w[0] == 'append' and w[2] != '!':
+                    c = 'cmpq %s' % w[2]
+                elif w[0] == 'setitem' and w[3] != '!':
+                    c = 'cmpq %s' % w[3]
+                if c and c not in cmp_seen:
+                    cmp_seen.add(c)
+                    cmp_lines.append(c)
         if not ctx.model_ok:
             return
         out = ctx.driver(lines)
@@ -137,9 +153,17 @@ class C17(Check):
             ok, what = impl.same_reply(want, got)
             if not ok:
                 ctx.disagree('media history step (%s)' % what,
-                             {'context': h.context, 'start': h.start, 'ops': [list(o) for o in h.ops], 'line': line},
+                             {'context': h.context, 'start': h.start, 'raising': h.raising,
+                              'ops': [list(o) for o in h.ops], 'line': line},
                              want, got)
         ctx.notes['model_unsupported_steps'] = unsupported
+        # derived automata vs the generic engine on the grammars captured from the live objects
+        out = ctx.driver(cmp_lines)
+        for line, got in zip(cmp_lines, out):
+            ctx.count('engine-vs-derived:' + got.split(' ')[0])
+            if got.startswith('differ') or got == 'bad-op':
+                ctx.disagree('derived parser vs engine on the captured grammar', {'line': line},
+                             'derived (Model/Media.lean)', got)
 
     # ------------------------------------------------------------------------------------------
     def known(self, ctx, finding):
